@@ -57,6 +57,11 @@ def inject (cfg : Cfg) (s : State) : Inj → State × Nat
 
 def readyz (s : State) : Nat := if s.signer.isNone then 503 else 200
 
+/-- main(): the service port listens, and the second readiness route (`/readiness`, the health server's) turns
+ready, only after the unseal signal has been received -/
+def serviceUp (s : State) : Bool := decide (0 < s.readySignals)
+def readiness (s : State) : Nat := if s.readySignals = 0 then 503 else 200
+
 /-- an ordinary request to a route that tests the seal first -/
 def guardedStatus (s : State) : Option Nat := if s.signer.isNone then some 500 else none
 
